@@ -208,10 +208,7 @@ func checkC16(w *World, r *Report) {
 
 	r.Rule("R16.9", "a union accepts iff some member accepts — so every member type written in the union reaches it: in getTypes each BuildType result of the loop over the type statements is appended on every path (no member is dropped, e.g. for sharing a type name with an earlier one)", 1)
 	r.guard("R16.9", func() {
-		f := w.SSAFunc(w.Method("compile", "Compiler", "getTypes"))
-		if f == nil {
-			panic(undecided{"Compiler.getTypes"})
-		}
+		f := c16UnionMembersFunc(w)
 		found, ok, why := everyIterationAppends(f, func(c *ssa.Call) bool {
 			return c.Call.StaticCallee() != nil && nm(c.Call.StaticCallee()) == "BuildType"
 		})
@@ -847,4 +844,20 @@ func partsScan(w *World, r *Report, rule string) {
 		}
 		r.Check(why == "", rule, what, f.Pos(), "accepted iff some part accepts", why+": a value that a later (or earlier) part of `a..b | c..d` holds is rejected — and a default with such a value fails the compile")
 	}
+}
+
+// c16UnionMembersFunc: the function that builds the member types of a union —
+// Compiler.getTypes, or makeUnion when getTypes was inlined into it (its only
+// caller).
+func c16UnionMembersFunc(w *World) *ssa.Function {
+	if m := w.TryMethod("compile", "Compiler", "getTypes"); m != nil {
+		if f := w.SSAFunc(m); f != nil {
+			return f
+		}
+	}
+	f := w.SSAFunc(w.Method("compile", "Compiler", "makeUnion"))
+	if f == nil {
+		panic(undecided{"Compiler.getTypes / makeUnion"})
+	}
+	return f
 }
